@@ -32,6 +32,7 @@ pub struct ExecStats {
 thread_local! {
     static IN_EXEC: Cell<bool> = const { Cell::new(false) };
     static VIOLATION: RefCell<Option<Failure>> = const { RefCell::new(None) };
+    static SOFT: RefCell<Option<Failure>> = const { RefCell::new(None) };
     static STATS: RefCell<ExecStats> = RefCell::new(ExecStats::default());
     static FUTEX: RefCell<Option<std::sync::Arc<futex::Model>>> = const { RefCell::new(None) };
     /// spurious-return scripts: per shuttle task id, flags consumed by successive FUTEX_WAIT calls
@@ -47,6 +48,33 @@ pub fn violation(sig: &str, detail: String) {
             let mut v = v.borrow_mut();
             if v.is_none() {
                 // copy into fresh (untracked) allocations: `detail` may have been built inside a tracked region
+                *v = Some(Failure::new(sig.to_string(), detail.as_str().to_string()));
+            }
+        });
+        drop(detail);
+    });
+}
+
+pub fn clear_violation() {
+    VIOLATION.with(|v| *v.borrow_mut() = None);
+    SOFT.with(|v| *v.borrow_mut() = None);
+}
+
+/// The first hard violation, else the first soft one.
+pub fn take_violation() -> Option<Failure> {
+    let hard = VIOLATION.with(|v| v.borrow_mut().take());
+    let soft = SOFT.with(|v| v.borrow_mut().take());
+    hard.or(soft)
+}
+
+/// Records a deviation that does not stop the case: the script keeps running (so that a listed
+/// known finding does not hide a different violation later in the same case); it is reported at
+/// the end of the case only if no hard violation was recorded.
+pub fn soft_violation(sig: &str, detail: String) {
+    qalloc::untracked(|| {
+        SOFT.with(|v| {
+            let mut v = v.borrow_mut();
+            if v.is_none() {
                 *v = Some(Failure::new(sig.to_string(), detail.as_str().to_string()));
             }
         });
@@ -284,7 +312,8 @@ pub mod futex {
 
     #[derive(Default)]
     struct State {
-        /// (address, ticket) of blocked waiters, in arrival order
+        /// (address, ticket) of blocked waiters, in arrival order.  Shared-memory objects are modelled
+        /// as one block per object (`vsched::shm`), so the address identifies the futex.
         waiters: Vec<(usize, u64)>,
         next: u64,
     }
@@ -391,6 +420,220 @@ pub mod futex {
 
 thread_local! {
     static BLOCKED: Cell<usize> = const { Cell::new(0) };
+}
+
+// ---------------------------------------------------------------------------------------------
+// POSIX shared memory objects, modelled in process memory
+
+/// `shm_open` / `ftruncate` / `mmap` / `munmap` / `close` / `shm_unlink` of `shm/posix.rs` go here.
+/// A shared memory object is a zero-filled, page-aligned block of process memory; every "mapping"
+/// of an object is the same block (same address), which is also what makes a futex word inside it
+/// one futex for all its users (the kernel keys shared futexes by (object, offset)).  Creating and
+/// tearing down real mappings for each of the ~10^5 executions of a check costs ~2 ms each under
+/// load (mmap_lock), the model costs one allocation.
+pub mod shm {
+    use std::{
+        alloc::{Layout, System, GlobalAlloc},
+        cell::RefCell,
+    };
+
+    use libc::{c_char, c_int, c_void, mode_t, off_t, size_t};
+
+    const PAGE: usize = 4096;
+    const FD_BASE: c_int = 1_000_000;
+
+    struct Obj {
+        id: u64,
+        name: Option<Vec<u8>>,
+        base: *mut u8,
+        size: usize,
+        fds: usize,
+        maps: usize,
+    }
+
+    #[derive(Default)]
+    struct Reg {
+        objs: Vec<Obj>,
+        fds: Vec<(c_int, u64)>,
+        next_fd: c_int,
+        next_id: u64,
+    }
+
+    thread_local! {
+        static REG: RefCell<Reg> = RefCell::new(Reg::default());
+    }
+
+    fn set_errno(e: c_int) {
+        errno::set_errno(errno::Errno(e));
+    }
+
+    fn reg<R>(f: impl FnOnce(&mut Reg) -> R) -> R {
+        super::qalloc::untracked(|| REG.with(|r| f(&mut r.borrow_mut())))
+    }
+
+    fn gc(r: &mut Reg) {
+        r.objs.retain(|o| {
+            let dead = o.name.is_none() && o.fds == 0 && o.maps == 0;
+            if dead && !o.base.is_null() {
+                // SAFETY: allocated below with exactly this layout; nothing refers to it any more.
+                unsafe { System.dealloc(o.base, Layout::from_size_align_unchecked(o.size, PAGE)) };
+            }
+            !dead
+        });
+    }
+
+    /// # Safety
+    /// `name` must be a valid C string.
+    pub unsafe fn shm_open(name: *const c_char, oflag: c_int, _mode: mode_t) -> c_int {
+        // SAFETY: caller contract.
+        let n = unsafe { std::ffi::CStr::from_ptr(name) }.to_bytes().to_vec();
+        reg(|r| {
+            let found = r.objs.iter().position(|o| o.name.as_deref() == Some(&n[..]));
+            let idx = match found {
+                Some(i) => {
+                    if oflag & libc::O_CREAT != 0 && oflag & libc::O_EXCL != 0 {
+                        set_errno(libc::EEXIST);
+                        return -1;
+                    }
+                    i
+                }
+                None => {
+                    if oflag & libc::O_CREAT == 0 {
+                        set_errno(libc::ENOENT);
+                        return -1;
+                    }
+                    let id = r.next_id;
+                    r.next_id += 1;
+                    r.objs.push(Obj {
+                        id,
+                        name: Some(n),
+                        base: std::ptr::null_mut(),
+                        size: 0,
+                        fds: 0,
+                        maps: 0,
+                    });
+                    r.objs.len() - 1
+                }
+            };
+            r.objs[idx].fds += 1;
+            let fd = FD_BASE + r.next_fd;
+            r.next_fd += 1;
+            let id = r.objs[idx].id;
+            r.fds.push((fd, id));
+            fd
+        })
+    }
+
+    /// # Safety
+    /// `name` must be a valid C string.
+    pub unsafe fn shm_unlink(name: *const c_char) -> c_int {
+        // SAFETY: caller contract.
+        let n = unsafe { std::ffi::CStr::from_ptr(name) }.to_bytes().to_vec();
+        reg(|r| match r.objs.iter_mut().find(|o| o.name.as_deref() == Some(&n[..])) {
+            Some(o) => {
+                o.name = None;
+                gc(r);
+                0
+            }
+            None => {
+                set_errno(libc::ENOENT);
+                -1
+            }
+        })
+    }
+
+    /// # Safety
+    /// None (model).
+    pub unsafe fn ftruncate(fd: c_int, len: off_t) -> c_int {
+        reg(|r| {
+            let Some(id) = r.fds.iter().find(|e| e.0 == fd).map(|e| e.1) else {
+                set_errno(libc::EBADF);
+                return -1;
+            };
+            let o = r.objs.iter_mut().find(|o| o.id == id).expect("fd refers to an object");
+            if !o.base.is_null() || len <= 0 {
+                // only the "size a fresh object once" use of posix.rs is modelled
+                set_errno(libc::EINVAL);
+                return -1;
+            }
+            let size = (len as usize).div_ceil(PAGE) * PAGE;
+            // SAFETY: non-zero size, valid alignment.
+            let p = unsafe { System.alloc_zeroed(Layout::from_size_align_unchecked(size, PAGE)) };
+            if p.is_null() {
+                set_errno(libc::ENOMEM);
+                return -1;
+            }
+            o.base = p;
+            o.size = size;
+            0
+        })
+    }
+
+    /// # Safety
+    /// None (model); the returned block stays valid until the matching `munmap`s and `close`s.
+    pub unsafe fn mmap(_addr: *mut c_void, len: size_t, _prot: c_int, _flags: c_int, fd: c_int, off: off_t) -> *mut c_void {
+        reg(|r| {
+            let Some(id) = r.fds.iter().find(|e| e.0 == fd).map(|e| e.1) else {
+                set_errno(libc::EBADF);
+                return libc::MAP_FAILED;
+            };
+            let o = r.objs.iter_mut().find(|o| o.id == id).expect("fd refers to an object");
+            if off != 0 || o.base.is_null() || len == 0 || len > o.size {
+                set_errno(libc::EINVAL);
+                return libc::MAP_FAILED;
+            }
+            o.maps += 1;
+            o.base.cast::<c_void>()
+        })
+    }
+
+    /// # Safety
+    /// `addr` must come from [`mmap`].
+    pub unsafe fn munmap(addr: *mut c_void, _len: size_t) -> c_int {
+        reg(|r| {
+            match r.objs.iter_mut().find(|o| o.base.cast::<c_void>() == addr && o.maps > 0) {
+                Some(o) => {
+                    o.maps -= 1;
+                    gc(r);
+                    0
+                }
+                None => {
+                    // mapping of an abandoned execution: its object was forgotten, leave the memory alone
+                    0
+                }
+            }
+        })
+    }
+
+    /// # Safety
+    /// None (model).
+    pub unsafe fn close(fd: c_int) -> c_int {
+        reg(|r| {
+            let Some(p) = r.fds.iter().position(|e| e.0 == fd) else {
+                set_errno(libc::EBADF);
+                return -1;
+            };
+            let (_, id) = r.fds.remove(p);
+            if let Some(o) = r.objs.iter_mut().find(|o| o.id == id) {
+                o.fds -= 1;
+            }
+            gc(r);
+            0
+        })
+    }
+
+    /// Number of objects that still exist (harness-side leak check of the model itself).
+    pub fn live_objects() -> usize {
+        reg(|r| r.objs.len())
+    }
+
+    /// Forgets everything without freeing (abandoned executions may still point into the blocks).
+    pub fn forget_all() {
+        reg(|r| {
+            r.objs.clear();
+            r.fds.clear();
+        });
+    }
 }
 
 // ---------------------------------------------------------------------------------------------
@@ -752,6 +995,7 @@ thread_local! {
 }
 
 fn reset_exec_state() {
+    shm::forget_all();
     FUTEX.with(|f| *f.borrow_mut() = None);
     SPURIOUS.with(|s| s.borrow_mut().clear());
     BLOCKED.with(|b| b.set(0));
@@ -765,7 +1009,7 @@ pub fn explore<F>(cfg: &RunCfg, body: F) -> Result<RunStats, Failure>
 where
     F: Fn() -> Result<(), Failure> + Send + Sync + 'static,
 {
-    VIOLATION.with(|v| *v.borrow_mut() = None);
+    clear_violation();
     STATS.with(|s| *s.borrow_mut() = ExecStats::default());
     STARTED.with(|c| c.set(0));
     COMPLETED.with(|c| c.set(0));
@@ -812,7 +1056,7 @@ where
     let started = STARTED.with(|c| c.get());
     let completed = COMPLETED.with(|c| c.get());
     let exec = STATS.with(|s| s.borrow().clone());
-    let viol = VIOLATION.with(|v| v.borrow_mut().take());
+    let viol = take_violation();
     reset_exec_state();
     match res {
         Err((msg, loc)) => {
